@@ -369,7 +369,7 @@ def run(ctx):
         "read-back is checked for grammar-conforming modules in layout order whose literal widths agree with their declared types",
         "NaN payloads are excepted, as in the property"]
     return C.finish(ctx, level="proof", checker_cmd="lake build Rspirv.Props.C07 + #print axioms",
-                    rule="every enumerant / mask bit / opcode as an operand; every quantifier shape of every core instruction; seeded layout-ordered modules + typed-constant and ext-inst modules; oracle = header, one line per instruction, read-back with the vocabulary; distinct non-trivial = distinct opcodes printed",
+                    rule="every enumerant / mask bit / opcode as an operand; every quantifier shape of every core instruction; seeded layout-ordered modules + typed-constant and ext-inst modules; oracle = header, one line per instruction, read-back with the vocabulary; the same extended-instruction set imported several times under different ids; distinct non-trivial = distinct opcodes printed",
                     trusted=["hand model Disasm.lean + differential harness (disas channels)", "tools/disread.py (reader used by the oracle)"])
 
 
